@@ -722,6 +722,19 @@ def random_battery():
                       expect={"replay": [(2, 0), (3, 0), (4, 1), (5, 0)], "range": (0, 1 << 62)}, note="every resetRandom, also the second and third, replays from the start"))
     b.append(Scenario(hdr + "loop(k,4)\nresetRandom;\n0 (random(%s))\n0 (random(%s))\nend loop\n" % ((BIG,) * 2), S,
                       expect={"replay": [(2, 0), (3, 1), (4, 0), (5, 1), (6, 0), (7, 1)], "range": (0, 1 << 62)}, note="resetRandom in each of four loop passes"))
+    # fourth round: draws in BOTH operands of every binary operator are taken left to right (the same program with the
+    # draws bound to variables first gives the same value); a zero-width bits entry still evaluates - and draws - once
+    for op in ("+", "-", "*", "/", "%", "<<", ">>", "&", "|", "^", "<", ">", "<=", ">=", "=", "!="):
+        # the small third operand keeps comparisons and shifts informative: (p op q) alone would often be 0 / 1 either way
+        e1 = "(random(%s) %s (random(%s) | 1)) * 3 + (random(1000) %s random(1000))" % (BIG, op, BIG, op)
+        e2 = "(p %s (q | 1)) * 3 + (r %s t)" % (op, op)
+        b.append(Scenario(hdr + "0 (%s)\nresetRandom;\nlet p = random(%s);\nlet q = random(%s);\nlet r = random(1000);\nlet t = random(1000);\n0 (%s)\n"
+                          % (e1, BIG, BIG, e2), S, expect={"replay": [(1, 0)]},
+                          note="both operands of `%s` draw: left operand first" % op))
+    b.append(Scenario(hdr + "0 (random(%s))\n0 (random(%s))\nresetRandom;\nbits(0, random(%s)) 0 (random(%s))\n" % ((BIG,) * 4), S,
+                      expect={"replay": [(2, 1)]}, note="bits(0, e) fills no column but still evaluates e, and draws, once"))
+    b.append(Scenario(hdr + "0 (random(%s))\n0 (random(%s))\n0 (random(%s))\nresetRandom;\nbits(0, random(%s)) bits(0, random(%s)) 0 (random(%s))\n" % ((BIG,) * 6), S,
+                      expect={"replay": [(3, 2)]}, note="two zero-width bits entries draw twice"))
     return b
 
 
@@ -786,6 +799,12 @@ def vars_battery():
     b.append(sc("A B\nlet x = 1;\nloop(a,1)\nlet x = 2;\nloop(b,1)\nlet x = 3;\nloop(c,1)\n1 X\nend loop\n2 X\nend loop\n3 X\nend loop\n4 X\n",
                 [{"x": "3", "a": "0", "b": "0", "c": "0"}, {"x": "3", "a": "0", "b": "0"}, {"x": "2", "a": "0"}, {"x": "1"}],
                 "three nested re-bindings uncover one by one"))
+    b.append(sc("A B\nlet x = 1;\nloop(a,1)\nlet x = 2;\nloop(b,1)\n(x) X\nend loop\n(x) X\nend loop\n(x) X\n",
+                [{"x": "2", "a": "0", "b": "0"}, {"x": "2", "a": "0"}, {"x": "1"}],
+                "a name bound in two enclosing scopes, read in a third that does not bind it: the inner of the two wins"))
+    b.append(sc("A B\nlet x = 1;\nlet y = 1;\nloop(a,1)\nlet x = 2;\nloop(b,1)\nlet y = 3;\nlet x = 4;\nloop(c,1)\nloop(d,1)\n(x+y) X\nend loop\nend loop\nend loop\nend loop\n",
+                [{"x": "4", "y": "3", "a": "0", "b": "0", "c": "0", "d": "0"}],
+                "names bound in three enclosing scopes below two scopes that bind nothing"))
     b.append(sc("A B\nlet k = 0;\nloop(i,2)\nloop(z,k)\n9 X\nend loop\n(i) X\nend loop\n5 X\n",
                 [{"k": "0", "i": "0"}, {"k": "0", "i": "1"}, {"k": "0"}],
                 "zero-trip loop inside a loop leaves the outer frame to the outer loop"))
@@ -896,6 +915,18 @@ def lines_battery():
     b.append(sc("\n\nA Y\n0 X\n1 X\n", [4, 5], "blank lines before the header"))
     b.append(sc("\r\n\r\nA Y\r\n0 X\r\n\r\n1 X\r\n", [4, 6], "CRLF with leading blank lines"))
     b.append(sc("\r\nA Y\r\n0 X\r\n1 X\r\n", [3, 4], "CRLF with one leading blank line"))
+    # fourth round: header names of multi-byte characters (byte offsets and character counts differ), then blank /
+    # short lines
+    for names, sigs_ in ((("\u00c4", "\u0178"), None), (("Gr\u00f6\u00dfe", "\u00acQ"), None), (("\u4fe1\u53f7\u5165", "\u4fe1\u53f7\u51fa"), None),
+                         (("a\u0305", "Q\u0305\u0305\u0305\u0305"), None)):
+        Sn = [("in", names[0], 1, 0), ("out", names[1], 8)]
+        hdr_ = "%s %s" % names
+        b.append(Scenario(hdr_ + "\n\n\n0 X\n1 X\n", Sn, default_answer=[0], expect={"lines": [4, 5]}, max_rows=100,
+                          note="multi-byte header names, blank lines after the header"))
+        b.append(Scenario(hdr_ + "\n0 X\n\n1 X\n#\n\n0 X\n", Sn, default_answer=[0], expect={"lines": [2, 4, 7]}, max_rows=100,
+                          note="multi-byte header names, short rows and comments"))
+        b.append(Scenario("\n" + hdr_ + "\r\n\r\n\r\n\r\n0 X\r\n", Sn, default_answer=[0], expect={"lines": [6]}, max_rows=100,
+                          note="multi-byte header names, CRLF blank lines"))
     b.append(sc("A Y\nloop(i,2)\n\n0 X\nend loop\n1 X\n", [4, 4, 6], "blank line below a loop header"))
     b.append(sc("A Y\nloop(i,2)\n# one\n# two\nloop(j,1)\n\n0 X\nend loop\nend loop\n", [7, 7], "comments below nested loop headers"))
     b.append(sc("A Y\r\nlet k = 0;\r\nwhile(k < 2)\r\n\r\nlet k = k + 1;\r\n0 X\r\nend while\r\n1 X\r\n", [6, 6, 8], "CRLF while with a blank line"))
@@ -1064,7 +1095,8 @@ static_judge = no_panic_judge(static_judge_one)
 # ------------------------------------------------------------------ C16 .dig documents
 
 def xml_escape(s):
-    return s.replace("&", "&amp;").replace("<", "&lt;").replace(">", "&gt;")
+    # a carriage return survives XML parsing only as a character reference (a literal CR is normalised to LF)
+    return s.replace("&", "&amp;").replace("<", "&lt;").replace(">", "&gt;").replace("\r", "&#xd;")
 
 
 def dig_xml(pins, tests, label_first=True):
@@ -1137,6 +1169,16 @@ def dig_battery():
                       note="blank lines before the header of a document test are counted"))
     b.append(Scenario(dig_xml(pins, [t3]), [], mode="dig", load="name:" + "blank-first".encode().hex(), default_answer=[0, 0],
                       expect={"dig": "ok", "load": "ok", "lines": [5, 7]}, note="the same, loaded by name"))
+    # fourth round: a document test whose source really has CRLF line ends (stored as &#xd; + newline)
+    t4 = ("crlf", "A Y\r\n1 1\r\n\r\n2 2\r\nloop(i,2)\r\n\r\n3 3\r\nend loop\r\n")
+    b.append(Scenario(dig_xml(pins, [t1, t4]), [], mode="dig", load="1", default_answer=[0, 0],
+                      expect={"dig": "ok", "load": "ok", "tests": [t1, t4], "lines": [2, 4, 7, 7]},
+                      note="CRLF line ends inside a document test count once each"))
+    b.append(Scenario(dig_xml(pins, [t4]), [], mode="dig", load="name:" + "crlf".encode().hex(), default_answer=[0, 0],
+                      expect={"dig": "ok", "load": "ok", "lines": [2, 4, 7, 7]}, note="the same, loaded by name"))
+    t5 = ("cr-blank-first", "\r\n\r\nA Y\r\n1 1\r\n")
+    b.append(Scenario(dig_xml(pins, [t5]), [], mode="dig", load="0", default_answer=[0, 0],
+                      expect={"dig": "ok", "load": "ok", "tests": [t5], "lines": [4]}, note="CRLF blank lines before the header of a document test"))
     pinsn = [("In", "N", 8, -1), ("In", "M", 64, -128), ("In", "P", 4, 9), ("Out", "Y", 8, None)]
     b.append(Scenario(dig_xml(pinsn, [("t", "P Y\n1 1\n")]), [], mode="dig", load="0", default_answer=[0],
                       expect={"dig": "ok", "signals": ["N:8:in:-1", "M:64:in:-128", "P:4:in:9", "Y:8:out"], "load": "ok",
